@@ -341,15 +341,23 @@ void _vnacal_teardown_parameter_collection(vnacal_t *vcp)
 {
     vnacal_parameter_collection_t *vprmcp = &vcp->vc_parameter_collection;
 
+    /*
+     * Delete every parameter the user has not deleted already.  A parameter
+     * that serves as the initial guess or correlate of another one can
+     * have either a lower or a higher index than its referrer and remains
+     * allocated until the referrer is freed, so test for an empty table
+     * only after the whole table has been walked.
+     */
     for (int i = vprmcp->vprmc_allocation - 1; i >= 0; --i) {
 	vnacal_parameter_t *vpmrp = vprmcp->vprmc_vector[i];
 
-	if (vpmrp != NULL) {
-	    assert(!vpmrp->vpmr_deleted);
+	if (vpmrp != NULL && !vpmrp->vpmr_deleted) {
 	    vpmrp->vpmr_deleted = true;
 	    _vnacal_release_parameter(vpmrp);
-	    assert(vprmcp->vprmc_vector[i] == NULL);
 	}
+    }
+    for (int i = 0; i < vprmcp->vprmc_allocation; ++i) {
+	assert(vprmcp->vprmc_vector[i] == NULL);
     }
     free((void *)vprmcp->vprmc_vector);
     (void)memset((void *)&vcp->vc_parameter_collection, 0,
